@@ -341,6 +341,71 @@ theorem rank_forced_fails (ks : List Kind) (h2 : 2 ≤ ks.length)
   · exact this.1 k hk e
   · exact h this.2
 
+/-- the `uint64_t` cast of a C `int` (what `ranking_value = forced_efficiency` stores) -/
+def ukey (f : Int) : Nat := if 0 ≤ f then f.toNat else (f + 18446744073709551616).toNat
+
+theorem forcedKey_int (k : Kind) (h : -18446744073709551616 ≤ k.forced ∧ k.forced < 18446744073709551616) :
+    forcedKey k = ukey k.forced := by
+  unfold forcedKey ukey
+  split <;> omega
+
+theorem ukey_inj {a b : Int} (ha : -9223372036854775808 ≤ a ∧ a < 9223372036854775808)
+    (hb : -9223372036854775808 ≤ b ∧ b < 9223372036854775808) (h : ukey a = ukey b) : a = b := by
+  unfold ukey at h
+  split at h <;> split at h <;> omega
+
+/-- on the whole range of a C `int` (negative values other than -1 included — the internal entry point and private
+    writes can store them) `ForcedOK` is still "all known and pairwise distinct" -/
+theorem forcedOK_iff_int (ks : List Kind)
+    (hb : ∀ k ∈ ks, -9223372036854775808 ≤ k.forced ∧ k.forced < 9223372036854775808) :
+    ForcedOK ks ↔ (∀ k ∈ ks, k.forced ≠ -1) ∧ (ks.map (·.forced)).Pairwise (· ≠ ·) := by
+  unfold ForcedOK
+  constructor
+  · rintro ⟨hk, hn⟩
+    refine ⟨hk, ?_⟩
+    unfold List.Nodup at hn
+    rw [List.pairwise_map] at hn ⊢
+    apply hn.imp_of_mem
+    intro a b _ _ hne e
+    apply hne
+    unfold forcedKey; rw [e]
+  · rintro ⟨hk, hd⟩
+    refine ⟨hk, ?_⟩
+    unfold List.Nodup
+    rw [List.pairwise_map] at hd ⊢
+    apply hd.imp_of_mem
+    intro a b ha hb' hne e
+    have h1 := hb a ha
+    have h2 := hb b hb'
+    rw [forcedKey_int a (by omega), forcedKey_int b (by omega)] at e
+    exact hne (ukey_inj h1 h2 e)
+
+/-- EVERY array of two or more kinds whose forced efficiencies are known and pairwise distinct C `int`s of either sign:
+    the default and the `forced_efficiency` strategies sort by the `uint64_t` cast — non-negative values in increasing
+    order first, then the negative ones in increasing order -/
+theorem rank_forced_int {strat : Strategy} (hs : strat = .dflt ∨ strat = .forced) (ks : List Kind) (h2 : 2 ≤ ks.length)
+    (hb : ∀ k ∈ ks, -9223372036854775808 ≤ k.forced ∧ k.forced < 9223372036854775808)
+    (hk : ∀ k ∈ ks, k.forced ≠ -1) (hd : (ks.map (·.forced)).Pairwise (· ≠ ·)) :
+    rank strat ks = renumber 0 (sortBy forcedKey ks) ∧
+    (rank strat ks).Pairwise (fun a b => ukey a.forced < ukey b.forced) ∧
+    (∀ (i : Nat) (hi : i < (rank strat ks).length), (rank strat ks)[i].eff = (i : Int)) := by
+  have hok : ForcedOK ks := (forcedOK_iff_int ks hb).mpr ⟨hk, hd⟩
+  have hsel : Sel strat ks forcedKey := by
+    rcases hs with rfl | rfl
+    · exact Or.inl ⟨hok, rfl⟩
+    · exact ⟨hok, rfl⟩
+  have R := (rank_by_strategy strat ks h2).1 forcedKey hsel
+  refine ⟨R.1, ?_, R.2.2.2⟩
+  have hb' : ∀ k ∈ rank strat ks, -9223372036854775808 ≤ k.forced ∧ k.forced < 9223372036854775808 :=
+    forall_core (rank_sameCore strat ks)
+      (P := fun c => -9223372036854775808 ≤ c.2.1 ∧ c.2.1 < 9223372036854775808) hb
+  apply R.2.1.imp_of_mem
+  intro a b ha hbm hlt
+  have h1 := hb' a ha
+  have h2' := hb' b hbm
+  rw [forcedKey_int a (by omega), forcedKey_int b (by omega)] at hlt
+  exact hlt
+
 /-! ### 4. the info summary of a kind: the LAST pair of each name counts -/
 
 /-- value of the last pair named `name` -/
@@ -469,6 +534,71 @@ theorem ctFreqKey_collision :
     ctFreqKey true { cpuset := 1, eff := -1, forced := -1, infos := [("CoreType", "IntelAtom"), ("FrequencyBaseMHz", "1050076")] } =
     ctFreqKey true { cpuset := 2, eff := -1, forced := -1, infos := [("CoreType", "IntelCore"), ("FrequencyBaseMHz", "1500")] } := by
   decide
+
+/-! #### non-numeric values: libc `atoi` answers 0, the kind then has no frequency summary -/
+
+theorem strtol_nonnumeric (s : String) (c : Char) (cs : List Char) (h : s.toList.dropWhile isSpace = c :: cs)
+    (h1 : c ≠ '-') (h2 : c ≠ '+') (h3 : c.isDigit = false) : strtol s = 0 := by
+  unfold strtol
+  simp only [h]
+  split
+  · rename_i r e; injection e with e1 _; exact absurd e1 h1
+  · rename_i r e; injection e with e1 _; exact absurd e1 h2
+  · simp [digitsVal, h3]
+
+theorem strtol_empty (s : String) (h : s.toList.dropWhile isSpace = []) : strtol s = 0 := by
+  unfold strtol
+  simp only [h]
+  simp [digitsVal]
+
+/-- a value that, after white space, is empty or starts with something that is neither a sign nor a digit -/
+def NonNumeric (v : String) : Prop :=
+  v.toList.dropWhile isSpace = [] ∨
+  ∃ c cs, v.toList.dropWhile isSpace = c :: cs ∧ c ≠ '-' ∧ c ≠ '+' ∧ c.isDigit = false
+
+theorem atoiU32_nonnumeric (v : String) (h : NonNumeric v) : atoiU32 v = 0 := by
+  have e : strtol v = 0 := by
+    rcases h with h | ⟨c, cs, h, h1, h2, h3⟩
+    · exact strtol_empty v h
+    · exact strtol_nonnumeric v c cs h h1 h2 h3
+  unfold atoiU32; rw [e]; rfl
+
+/-- every info-based strategy needs its summaries: when the requirement of the table is not met, the array is left
+    untouched and every efficiency is -1 -/
+theorem rank_info_fails (s : Strategy) (hs : s ≠ .dflt ∧ s ≠ .forced) (ks : List Kind) (h2 : 2 ≤ ks.length)
+    (hn : ¬ Need (if s = .noForced then .coretypeFreq else s) ks) : rank s ks = clearEff ks := by
+  apply (rank_by_strategy s ks h2).2
+  intro key hsel
+  cases s
+  case dflt => exact hs.1 rfl
+  case forced => exact hs.2 rfl
+  case none => exact hsel
+  case noForced => exact hn hsel.1.1
+  all_goals exact hn hsel.1.1
+
+/-- a kind whose LAST FrequencyMaxMHz value is non-numeric (or which has none) defeats `frequency_max` for the whole
+    array; likewise FrequencyBaseMHz / `frequency_base` -/
+theorem rank_freqMax_fails (ks : List Kind) (h2 : 2 ≤ ks.length) (k : Kind) (hk : k ∈ ks)
+    (h : lastVal "FrequencyMaxMHz" k.infos = none ∨ ∃ v, lastVal "FrequencyMaxMHz" k.infos = some v ∧ NonNumeric v) :
+    rank .freqMax ks = clearEff ks := by
+  apply rank_info_fails .freqMax ⟨by decide, by decide⟩ ks h2
+  intro hm
+  apply hm k hk
+  rw [(summarize_spec k).1]
+  rcases h with h | ⟨v, h, hv⟩
+  · rw [h]; rfl
+  · rw [h]; exact atoiU32_nonnumeric v hv
+
+theorem rank_freqBase_fails (ks : List Kind) (h2 : 2 ≤ ks.length) (k : Kind) (hk : k ∈ ks)
+    (h : lastVal "FrequencyBaseMHz" k.infos = none ∨ ∃ v, lastVal "FrequencyBaseMHz" k.infos = some v ∧ NonNumeric v) :
+    rank .freqBase ks = clearEff ks := by
+  apply rank_info_fails .freqBase ⟨by decide, by decide⟩ ks h2
+  intro hm
+  apply hm k hk
+  rw [(summarize_spec k).2.1]
+  rcases h with h | ⟨v, h, hv⟩
+  · rw [h]; rfl
+  · rw [h]; exact atoiU32_nonnumeric v hv
 
 /-! ### 5. histories in which HWLOC_CPUKINDS_RANKING changes between the calls -/
 
